@@ -43,6 +43,8 @@ func replayViolation(prop string, v vioRec) (string, replayResult) {
 	rf := &ReplayFile{Property: prop, Unit: u.Name, Dir: u.Dir, Pkg: u.Pkg, Overlay: u.Overlay, Harness: u.Harness, Sets: v.sets, Kind: v.v.Kind, ID: v.v.ID, Msg: v.v.Msg, Witness: v.v.Witness, Env: v.v.EnvNondets, HangIsBug: u.HangIsBug}
 	if rf.Dir == "" {
 		rf.Dir = repoRoot()
+	} else if !filepath.IsAbs(rf.Dir) {
+		rf.Dir = filepath.Join(verifRoot(), rf.Dir)
 	}
 	name := nonWord.ReplaceAllString(fmt.Sprintf("%s-%s-%s-%s", prop, u.Name, v.v.Kind, v.v.ID), "_")
 	if len(name) > 120 {
@@ -80,6 +82,7 @@ func runReplay(rf *ReplayFile) replayResult {
 		}
 		files, _ := filepath.Glob(filepath.Join(d, "*.go"))
 		sort.Strings(files)
+		inPlace := filepath.Clean(d) == filepath.Clean(pkgDir)
 		for _, f := range files {
 			if strings.HasSuffix(f, "_test.go") {
 				continue
@@ -88,7 +91,9 @@ func runReplay(rf *ReplayFile) replayResult {
 				src, _ := os.ReadFile(f)
 				pkgName = packageClause(src)
 			}
-			repl[filepath.Join(pkgDir, "zz_vf_"+filepath.Base(f))] = f
+			if !inPlace {
+				repl[filepath.Join(pkgDir, "zz_vf_"+filepath.Base(f))] = f
+			}
 		}
 	}
 	if pkgName == "" {
